@@ -67,6 +67,7 @@ class PathTable:
         T._depth = depth
         T.attr_of_bound = True
         T.structured = self.structured
+        T.unroll_comps = self.unroll
         if self.unroll and self.module is not None:
             mod = self.module
 
@@ -150,6 +151,26 @@ class PathTable:
                 raise AnalysisError("decision table too large")
         return cur
 
+    def _row_store(self, t: ast.Subscript, v, l: Leaf, T: Translator):
+        """`X[k] = v` with a literal row index on a local array allocated with a literal number of rows: model the rows."""
+        if not (self.unroll and isinstance(t.value, ast.Name) and t.value.id in l.env):
+            return
+        try:
+            k = T._index(t.slice)
+        except AnalysisError:
+            return
+        if not (k.is_Integer and k >= 0):
+            return
+        cur = l.env[t.value.id]
+        if isinstance(cur, sp.Tuple) and k < len(cur):
+            l.env[t.value.id] = sp.Tuple(*[v if i == k else c for i, c in enumerate(cur)])
+            return
+        fn = getattr(getattr(cur, "func", None), "__name__", "")
+        if fn in ("empty", "zeros") and cur.args and isinstance(cur.args[0], sp.Tuple) and cur.args[0] and cur.args[0][0].is_Integer and k < cur.args[0][0] <= 8:
+            n = int(cur.args[0][0])
+            base = sp.Symbol(f"<unset {t.value.id}>")
+            l.env[t.value.id] = sp.Tuple(*[v if i == k else sp.Function("getitem")(base, sp.Integer(i)) for i in range(n)])
+
     def _copy(self, l: Leaf) -> Leaf:
         return Leaf(list(l.conds), dict(l.env), list(l.events), l.exit, l.value, dict(l.snaps), dict(l.store_at), list(l.cond_nodes))
 
@@ -178,6 +199,7 @@ class PathTable:
                         l.store_at[id(st)] = (T.tr(t.value), T._index(t.slice))
                     except AnalysisError:
                         pass
+                    self._row_store(t, v, l, T)
             return [l]
         if isinstance(st, ast.AugAssign):
             name = unparse(st.target)
@@ -398,6 +420,46 @@ def negate(r):
     if isinstance(r, sp.Ne):
         return sp.Eq(r.lhs, r.rhs, evaluate=False)
     return sp.Not(r)
+
+
+def holds(lit, assign) -> Optional[bool]:
+    """Truth of an (in)equality literal over string-valued arguments under a finite assignment."""
+    def val(e):
+        e = e.xreplace(assign)
+        return e
+    if isinstance(lit, (sp.Eq, sp.Ne)):
+        a, b = val(lit.lhs), val(lit.rhs)
+        in_ = sp.Function("in_")
+        if b == sp.true and getattr(a, "func", None) == sp.Function("in_"):
+            item, cont = a.args
+            if isinstance(cont, sp.Tuple) and item.is_Symbol and item.name.startswith("'") and all(c.is_Symbol and c.name.startswith("'") for c in cont):
+                r = item in list(cont)
+                return r if isinstance(lit, sp.Eq) else not r
+            return None
+        if b == sp.true and getattr(a, "func", None) == sp.Function("truth"):
+            inner = a.args[0]
+            if isinstance(inner, (sp.Eq, sp.Ne)) or inner in (sp.true, sp.false):
+                r = holds(inner, assign) if inner not in (sp.true, sp.false) else bool(inner)
+                return None if r is None else (r if isinstance(lit, sp.Eq) else not r)
+            return None
+        if a.is_Symbol and b.is_Symbol and a.name.startswith("'") and b.name.startswith("'"):
+            r = a == b
+            return r if isinstance(lit, sp.Eq) else not r
+        return None
+    if isinstance(lit, sp.Not):
+        r = holds(lit.args[0], assign)
+        return None if r is None else not r
+    if isinstance(lit, sp.And):
+        rs = [holds(x, assign) for x in lit.args]
+        return None if any(r is None for r in rs) else all(rs)
+    if isinstance(lit, sp.Or):
+        rs = [holds(x, assign) for x in lit.args]
+        return None if any(r is None for r in rs) else any(rs)
+    if lit in (sp.true, sp.false):
+        return bool(lit)
+    return None
+
+
 
 
 def literals_of(leaf: Leaf, nodes) -> List[sp.Expr]:
